@@ -5,8 +5,8 @@ CG = dict(units=["type.c"], mode="dfcc", cut=["error", "error_tok", "error_at", 
 META = dict(
     level="proof",
     claim="Statement lowering (real gen_stmt) and short-circuit/conditional lowering (real gen_expr), executed on the ghost x86 machine with abstract sub-statements: exactly the branch selected by the condition's value (of the condition's own type) is executed; for/do evaluate init, condition, body, increment in abstract-machine order, the back-edge returns to the loop head label, continue/break labels sit where C11 requires; &&, || and ?: evaluate their operands exactly when C11 says and in order; goto/label/case/return jump to / define the resolved labels. One symbolic pass per loop; iteration is by the loop-head invariant (machine balanced at the back-edge).",
-    note="Trusted: CBMC, ghost x86 machine. Not covered in this revision: switch dispatch chains, the statement parser's break/continue/switch context save-restore, scope lookup, goto label resolution.",
-    functions=["codegen.c:gen_stmt", "codegen.c:gen_expr", "codegen.c:cmp_zero", "codegen.c:count"],
+    note="Trusted: CBMC, ghost x86 machine. Not covered in this revision: the statement parser's break/continue/switch context save-restore, scope lookup, goto label resolution.",
+    functions=["codegen.c:gen_stmt", "codegen.c:gen_expr", "codegen.c:cmp_zero", "codegen.c:count", "parse.c:find_var", "parse.c:find_tag", "parse.c:find_typedef", "parse.c:resolve_goto_labels"],
     trusted_base=["CBMC 6.11", "spec/x86_ghost.h"],
     assumptions=["sub-statements and sub-expressions are abstract nodes satisfying the gen_stmt/gen_expr contracts"],
 )
@@ -21,6 +21,12 @@ def jobs(tier):
                 js.append(Job(name=f"stmt-{k}-{TI[cty]}-opt{ho}", src="stmt.c", group="C03.4 statement skeleton", defs={"KIND": k, "CTY": str(cty), "HAS_OPT": str(ho)},
                               enforce="gen_stmt", rec=True, replace=["gen_expr"], tier=("quick" if cty == 5 or ho == 1 else "thorough"),
                               sample=f"gen_stmt({k}), {TI[cty]} condition, optional parts {'present' if ho else 'absent'}", **CG))
+    for cty in (5, 6, 7, 8):
+        js.append(Job(name=f"switch-{TI[cty]}", src="switch.c", group="C03.6 switch dispatch", defs={"CTY": str(cty)}, enforce="gen_stmt", rec=True, replace=["gen_expr"],
+                      sample=f"switch on a {TI[cty]} value: two cases (values or ranges) + optional default, all bounds symbolic", **CG))
+    PLN = dict(mode="plain", cut=["error", "error_tok", "error_at", "warn_tok", "verror_at"], units=["type.c"], timeout=300, replay=None)
+    js.append(Job(name="names-scope", src="names.c", group="C03.3 name binding", defs={"FN": "0"}, unwind=5, bounded="3 nested scopes, 2 names", sample="find_var/find_tag/find_typedef over every binding pattern of 3 scopes", **PLN))
+    js.append(Job(name="names-goto", src="names.c", group="C03.3 name binding", defs={"FN": "1"}, unwind=12, bounded="2 gotos, 3 labels (one a prefix of another)", sample="resolve_goto_labels over every goto/label pattern", **PLN))
     for k in ("ND_LOGAND", "ND_LOGOR", "ND_COND"):
         js.append(Job(name=f"logic-{k}", src="../C01/logic.c", group="C03.5 short-circuit", defs={"KIND": k}, enforce="gen_expr", rec=True,
                       sample=f"gen_expr({k}): which operands are evaluated, in which order", **CG))
